@@ -236,6 +236,8 @@ def _exhaustive():
         for lag in range(0, 5):
             cases.append({"entry": "amdf", "lag": lag, "size": size, "zero": 0,
                           "xs": _E([F((-2) ** k, 4) for k in range(lag + size + 2)])})
+    for size in range(1, 41):
+        cases.append({"entry": "coeffs", "size": size, "lag": size - 1, "xs": []})
     for n in range(0, 4):
         for xs in itertools.product(vals, repeat=n):
             cases.append({"entry": "accumulate", "xs": _E(xs), "ints": False, "zmode": "int0"})
@@ -304,6 +306,19 @@ def impl(c):
                 "it": _run(lambda: al.accumulate.accumulate(iter(xs))),
                 "default": _run(lambda: al.accumulate(iter(xs))),
                 "z": _run(zf)}
+    if e == "coeffs":
+        def co(f):
+            den = list(f.denominator)
+            if den[0] != 1:
+                return {"err": "a0 != 1"}
+            return {"b": encl(f.numerator), "a": encl(den[1:])}
+        obs = {"recursive": co(al.maverage.recursive(c["size"])), "fir": co(al.maverage.fir(c["size"])),
+               "acc": co(al.accumulate.z)}
+        g = al.amdf(c["lag"], c["size"])
+        g = getattr(g, "__wrapped__", g)
+        filt = [x.cell_contents for x in (g.__closure__ or ()) if isinstance(x.cell_contents, al.LinearFilter)]
+        obs["lag"] = co(filt[0]) if len(filt) == 1 else {"err": "lag filter not found in the closure"}
+        return obs
     if e == "amdf":
         zero = dec(c["zero"])
         return {"out": _run(lambda: al.amdf(c["lag"], c["size"])(iter(xs), zero=zero))}
@@ -407,6 +422,18 @@ def compare(c, io, drv):
     elif e == "amdf":
         _cmp(out, "model", "amdf", io["out"], drv["model"], tol)
         _cmp(out, "spec", "amdf vs moving average of |x[n]-x[n-lag]|", io["out"], drv["spec"], tol)
+    elif e == "coeffs":
+        for k in ("recursive", "fir", "lag", "acc"):
+            if "err" in io[k]:
+                out.append(("model", "coefficients of %s: %s" % (k, io[k]["err"])))
+                continue
+            b, a = decl(io[k]["b"]), decl(io[k]["a"])
+            if k == "lag" and c["lag"] == 0:
+                b = b or [F(0)]          # the zero polynomial has an empty coefficient list
+            ctol = 0 if _pow2(c["size"]) else F(1, 10 ** 15)
+            if not (close_list(b, decl(drv[k + "_b"]), ctol) and close_list(a, decl(drv[k + "_a"]), ctol)):
+                out.append(("model", "coefficients of %s filter: impl b=%s a=%s lean b=%s a=%s" % (
+                    k, _s(io[k]["b"]), _s(io[k]["a"]), _s(drv[k + "_b"]), _s(drv[k + "_a"]))))
     elif e == "envelope":
         _cmp(out, "model", "lowpass(|x|) vs model", io["def_abs"], drv["abs"], TOL)
         _cmp(out, "model", "lowpass(x^2) vs model", io["def_squared"], drv["squared"], TOL)
@@ -450,6 +477,8 @@ def _list(io, k):
 
 
 def nontrivial(c, io):
+    if c["entry"] == "coeffs":
+        return True
     if not c["xs"]:
         return False
     e = c["entry"]
